@@ -424,7 +424,7 @@ theorem dropTable_streams (s : Pkg) (h : Listable s) (name : List Char) :
     simp only
     have htm := findTable_mem hf
     have tail : ∀ s1 : Pkg, Listable s1 → streams s1 = streams s →
-        streams (match deleteRows s1 Gen.nameValidation.toList (eqStr "Table" name) with
+        streams (match deleteValidation s1 name with
           | (s2, .ok ()) =>
             match deleteRows s2 Gen.nameColumns.toList (eqStr "Table" name) with
             | (s3, .ok ()) =>
@@ -433,7 +433,7 @@ theorem dropTable_streams (s : Pkg) (h : Listable s) (name : List Char) :
               | r => r
             | r => r
           | r => r).1 = streams s ∧
-        Listable (match deleteRows s1 Gen.nameValidation.toList (eqStr "Table" name) with
+        Listable (match deleteValidation s1 name with
           | (s2, .ok ()) =>
             match deleteRows s2 Gen.nameColumns.toList (eqStr "Table" name) with
             | (s3, .ok ()) =>
@@ -443,8 +443,12 @@ theorem dropTable_streams (s : Pkg) (h : Listable s) (name : List Char) :
             | r => r
           | r => r).1 := by
       intro s1 h1 e0
-      obtain ⟨e2, g2⟩ := deleteRows_streams s1 h1 Gen.nameValidation.toList (eqStr "Table" name)
-      generalize hr2 : deleteRows s1 Gen.nameValidation.toList (eqStr "Table" name) = r2 at e2 g2
+      have eg2 : streams (deleteValidation s1 name).1 = streams s1 ∧ Listable (deleteValidation s1 name).1 := by
+        rcases MsiProofs.DeleteValidation.deleteValidation_cases s1 name with e | e <;> rw [e]
+        · exact deleteRows_streams s1 h1 Gen.nameValidation.toList (eqStr "Table" name)
+        · exact ⟨rfl, h1⟩
+      obtain ⟨e2, g2⟩ := eg2
+      generalize hr2 : deleteValidation s1 name = r2 at e2 g2
       obtain ⟨s2, res2⟩ := r2
       cases res2 with
       | err k => exact ⟨e2.trans e0, g2⟩
